@@ -150,6 +150,8 @@ def build_doc(slot: str, s: str) -> dict:
 def trigger_of(slot: str, s: str) -> str:
     cls = gens.classify_string(s)
     if slot == "pattern":
+        if "nul" in cls:
+            return "nul"
         if "single_quote" in cls and "backslash" in cls:
             return "backslash_or_quote"
         if "single_quote" in cls:
@@ -170,6 +172,28 @@ def trigger_of(slot: str, s: str) -> str:
     return "other"
 
 
+# The defective mechanisms exactly as recorded in the known findings. A failure is attributed to a
+# finding only when the emitted text is what THAT mechanism produces; any other rendering of the
+# same slot is a different violation and is reported.
+D5_PINNED_PATTERN_TABLE = {"'": "\\'", "\b": "\\b", "\f": "\\f", "\n": "\\n", "\r": "\\r", "\t": "\\t"}
+
+
+def rendering_of(slot: str, s: str, code: str) -> str:
+    if slot == "pattern":
+        body = s.translate(str.maketrans(D5_PINNED_PATTERN_TABLE))
+        if ("r'" + body + "'") in code or ('r"' + body + '"') in code:  # black may normalise the quotes
+            return "raw_literal_with_cooked_table"
+        try:
+            return "raw_literal_with_cooked_table" if body in e2e.string_constants(code) else "other"
+        except SyntaxError:
+            return "other"
+    if slot in ("field_description", "class_description"):
+        from jinja2.filters import do_indent
+
+        return "verbatim_unescaped" if (do_indent(s, 4) in code or s in code) else "other"
+    return "n/a"
+
+
 def norm_ws(s: str) -> str:
     return re.sub(r"\s+", " ", s).strip()
 
@@ -185,6 +209,7 @@ def oracle_case(ck: Check, camp, slot: str, s: str, model: str, opts: dict, form
     adv = e2e.run_generate(build_doc(slot, s), model=model, opts=opts, formatters=formatters)
     neu = e2e.run_generate(build_doc(slot, gens.neutral(SLOTS.index(slot))), model=model, opts=opts, formatters=formatters)
     base = {"oracle": "planted_string", "site": slot, "kind": model, "trigger": trigger_of(slot, s)}
+    base["rendering"] = rendering_of(slot, s, adv.code)
     if adv.hang:
         camp.hit("hang(C01)")
         return
